@@ -32,7 +32,7 @@ S = M.struct("S")
 F2, F3, I2 = M.vec("float", 2), M.vec("float", 3), M.vec("int", 2)
 M3 = M.mat("float", 3, 3)
 GLOBALS = [(INT, "gi"), (FLOAT, "gf"), (F3, "gv"), (I2, "gw"), (M.arr(INT, (3,)), "ga"), (S, "gs"),
-           (M.arr(INT, (2, 3)), "g2"), (M3, "gm"), (M.arr(S, (2,)), "gsa"), (M.vec("float", 2), "gp")]
+           (M.arr(INT, (2, 3)), "g2"), (M3, "gm"), (M.arr(S, (2,)), "gsa"), (M.vec("float", 2), "gp"), (M3, "gn")]
 
 
 def lit(v):
@@ -64,6 +64,7 @@ gi, gf, gv, gw = V("gi", INT), V("gf", FLOAT), V("gv", F3), V("gw", I2)
 ga, gs, g2, gm, gsa = V("ga", M.arr(INT, (3,))), V("gs", S), V("g2", M.arr(INT, (2, 3))), V("gm", M3), V("gsa", M.arr(S, (2,)))
 P, Q = V("p", INT), V("q", FLOAT)
 gp = V("gp", F2)
+gn = V("gn", M3)
 
 
 def fib_function():
@@ -74,6 +75,17 @@ def fib_function():
             M.Decl(INT, "b", M.Call("fib", [M.Bin("-", n, lit(2))], INT, 0)),
             M.Return(M.Bin("+", M.Bin("+", V("a", INT), V("b", INT)), n))]
     return M.Func("fib", [(INT, "n")], INT, M.Block(body), False)
+
+
+def helper_functions():
+    """non-exported helpers that reach a global directly (rd, bump) or only through another helper (mid, bump2)"""
+    n = V("n", INT)
+    rd = M.Func("rd", [(INT, "n")], INT, M.Block([M.Return(M.Bin("+", gi, n))]), False)
+    mid = M.Func("mid", [(INT, "n")], INT, M.Block([M.Return(M.Bin("+", M.Call("rd", [n], INT, 1), lit(1)))]), False)
+    bump = M.Func("bump", [(INT, "n")], INT, M.Block([asg(idx(ga, 2, INT), "=", M.Bin("+", idx(ga, 2, INT), n)),
+                                                      M.Return(idx(ga, 2, INT))]), False)
+    bump2 = M.Func("bump2", [(INT, "n")], INT, M.Block([M.Return(M.Call("bump", [n], INT, 3))]), False)
+    return [rd, mid, bump, bump2]
 
 
 def pmod(n):
@@ -155,6 +167,24 @@ def actions():
         return [M.For(M.Decl(INT, i, lit(0)), M.Bin("<", V(i, INT), lit(2)), M.Affix("++", V(i, INT), True),
                       M.Block([M.Decl(INT, t.name), asg(t, "+=", M.Bin("+", P, V(i, INT))), asg(gi, "+=", t)]))]
     A["local-scalar-in-loop"] = local_scalar_loop
+    # the same helper called twice with equal arguments while the global it (indirectly) reads / writes changes
+    A["indirect-global-read"] = lambda k: [asg(gi, "=", M.Bin("+", M.Call("mid", [pmod(3)], INT, 2), lit(1))),
+                                          asg(gi, "=", M.Bin("+", M.Call("mid", [pmod(3)], INT, 2), lit(2)))]
+    A["indirect-global-write"] = lambda k: [asg(idx(ga, 0, INT), "=", M.Call("bump2", [lit(1)], INT, 4)),
+                                           asg(idx(ga, 1, INT), "=", M.Call("bump2", [lit(1)], INT, 4))]
+    A["direct-global-read"] = lambda k: [asg(gi, "=", M.Bin("+", M.Call("rd", [pmod(3)], INT, 1), lit(1))),
+                                        asg(gi, "=", M.Bin("-", M.Call("rd", [pmod(3)], INT, 1), lit(3)))]
+
+    # matrix products: one kept in a local across a second product of the same shape; one stored in a global that
+    # later invocations only read
+    def matrix_product(k):
+        t, u = V("mt%d" % k, M3), V("mu%d" % k, M3)
+        e = lambda m, r, c: idx(idx(m, r, F3), c, FLOAT)
+        return [M.Decl(M3, t.name, M.Bin("*", gm, gm)), M.Decl(M3, u.name, M.Bin("*", gm, t)),
+                asg(gf, "=", M.Bin("-", e(t, 1, 1), e(u, 0, 2))), asg(gn, "=", M.Bin("*", gm, gm))]
+    A["matrix-product"] = matrix_product
+    A["matrix-product-unassigned"] = lambda k: [M.Decl(M3, "mx%d" % k, M.Bin("*", gm, gm)),
+                                               asg(gf, "=", idx(idx(V("mx%d" % k, M3), 2, F3), 0, FLOAT))]
     A["tree-recursion"] = lambda k: [asg(gi, "+=", M.Call("fib", [M.Bin("%", P, lit(6))], INT, 0))]
     # constructors whose FIRST operand is a stored vector (global, struct field, matrix row)
     A["construct-from-stored-vector"] = lambda k: [
@@ -197,7 +227,7 @@ def programs(draw):
         rty = {"int": INT, "float": FLOAT, "vec": F3, "int2": INT}[rk]
         stmts.append(M.Return(copy.deepcopy(rf())))
         funcs.append(M.Func("f%d" % fi, [(INT, "p"), (FLOAT, "q")], rty, M.Block(stmts), True))
-    return M.Program([("S", S_FIELDS)], list(GLOBALS), [fib_function()] + funcs)
+    return M.Program([("S", S_FIELDS)], list(GLOBALS), [fib_function()] + helper_functions() + funcs)
 
 
 def value_strategy(ty, prog):
@@ -412,6 +442,8 @@ def run(R):
     if R.replay is not None:
         R._replaying("histories", run_history)
         return
+    if not R.in_worker:
+        R._regress("histories", run_history)
     R.custom("histories", worker_factory(R, R.pick(40, 400), R.pick(40, 50)), nworkers=16)
     for l in ("two-vms-interleaved", "setglobal-between-invocations", "several-vms", "step:invoke", "step:set", "step:get"):
         R.require(l)
